@@ -7,7 +7,7 @@ from ..common import Result, Violation, import_gscrib, pmap, digest, debug_loggi
 import_gscrib()
 from gscrib.writers.printrun_writer import PrintrunWriter   # noqa: E402
 
-VALUES = ["0.00", "-1.50", "12.25", "0.001", "-0.0", "100", "7", "-250.125"]
+VALUES = ["0.00", "-1.50", "12.25", "0.3937", "-0.0", "100", "7", "-250.125", "0.001", "-0.11815"]      # 4 decimals: Grbl reporting in inches
 LETTERS = ("X", "Y", "Z", "E", "T", "B", "F", "S", "A", "C")
 
 
